@@ -76,7 +76,7 @@ def run_program(spec: dict[str, Any], col: common.Collector, *, variant: bool = 
     """Build, generate, compile and execute *spec*; compare with the shadow.
     Returns {"outputs": {vset: {name: ndarray}}, "cp": Compiled} or None."""
     import pytato as pt
-    from vf.exec import ctarget
+    from vf.exec import ctarget, lpinterp
     from vf.oracle import compare
 
     wit = {"spec": spec, "variant": variant}
@@ -109,12 +109,24 @@ def run_program(spec: dict[str, Any], col: common.Collector, *, variant: bool = 
         if lim is not None:
             col.histo("outside_fragment", lim)
             return None
+        if f.stage in ("gcc", "loopy-codegen"):
+            try:
+                sigs = trusted_base_signatures(bp.program)
+            except Exception:  # noqa: BLE001
+                sigs = set()
+            if sigs:
+                # gcc rejects the C text and the kernel contains a construct loopy's C
+                # printer is known to emit without the parentheses C needs
+                col.histo("trusted_base_disagreements",
+                          f.stage + ":" + "+".join(sorted(sigs)))
+                return None
         site = common.exc_site(f.exc) if f.exc is not None else "gcc"
         col.violation(f"C01:codegen:{f.stage}:{type(f.exc).__name__ if f.exc else 'gcc'}@{site}",
                       f"code generation failed at stage {f.stage} for an in-fragment program: "
                       f"{str(f.exc)[:200] if f.exc else f.detail[-300:]}", wit)
         return None
     col.count("mon.programs_generated")
+    tb_sig = trusted_base_signatures(bp.program)
     knl = cp.kernel
     col.histo("kernel_insns", str(min(len(knl.instructions), 40) // 5 * 5))
     result: dict[str, Any] = {"outputs": {}, "cp": cp, "bp": bp}
@@ -137,6 +149,24 @@ def run_program(spec: dict[str, Any], col: common.Collector, *, variant: bool = 
             col.count("skipped_fragile")
             continue
         env = b.env(use_vs)
+        # -- third execution: interpret the kernel pytato produced (before loopy's passes)
+        it = None
+        try:
+            it = lpinterp.interpret(bp, env)
+            col.count("mon.kernel_interpreted")
+        except (lpinterp.Unsupported, lpinterp.UnsupportedExpr) as e:
+            col.histo("kernel_interp_unsupported", str(e)[:50])
+        if it is not None:
+            if it.rbw:
+                col.violation("C01:read-before-write",
+                              "an instruction reads a temporary/output element that no "
+                              "instruction it depends on has written (dependency omission)",
+                              {**wit, "vset": use_vs, "events": it.rbw[:3], "order": it.order})
+            hard = [o for o in it.oob if not o.get("data_dependent")]
+            if hard:
+                col.violation("C01:kernel-oob-access",
+                              "kernel subscript outside the array at an executed point",
+                              {**wit, "vset": use_vs, "events": hard[:3]})
         try:
             rr = ctarget.run(cp, bp, env)
         except ctarget.KernelContractError as e:
@@ -176,32 +206,135 @@ def run_program(spec: dict[str, Any], col: common.Collector, *, variant: bool = 
             if want.dtype != got.dtype:
                 col.histo("declared_dtype_differs_from_numpy", f"{want.dtype}->{got.dtype}")
             ok = compare.close_ulps(got, want_c, 16.0, err=8.0 * spread[name])
-            if not ok:
+            iok = None
+            if it is not None and name in it.outputs():
+                iv = it.outputs()[name]
+                iok = iv.shape == want_c.shape and compare.close_ulps(
+                    iv.astype(got.dtype), want_c, 16.0, err=8.0 * spread[name])
+                col.count("mon.interp_value_oracle")
+            if iok is False:
+                # the kernel pytato produced is wrong under loopy's documented semantics
                 key = classify_value(spec, name, got, want_c)
-                col.violation(key, f"output {name} differs from NumPy beyond tolerance",
+                col.violation(key, f"output {name}: the generated kernel (interpreted before "
+                              "loopy's passes) differs from NumPy beyond tolerance"
+                              + ("" if not ok else " (the compiled binary happens to agree)"),
                               {**wit, "vset": use_vs, "output": name,
-                               "diff": compare.describe_diff(got, want_c)})
+                               "diff": compare.describe_diff(it.outputs()[name], want_c)})
+            elif not ok:
+                if iok and tb_sig:
+                    # kernel is right, binary is wrong, and the kernel contains a construct
+                    # the trusted base (loopy's C printer) is known to mistranslate
+                    col.histo("trusted_base_disagreements", "+".join(sorted(tb_sig)))
+                else:
+                    key = classify_value(spec, name, got, want_c)
+                    col.violation(key, f"output {name} differs from NumPy beyond tolerance"
+                                  + (" (kernel interpreter agrees with NumPy: defect is "
+                                     "downstream of the pytato kernel or in the harness)"
+                                     if iok else ""),
+                                  {**wit, "vset": use_vs, "output": name,
+                                   "diff": compare.describe_diff(got, want_c)})
         result["outputs"][use_vs] = rr.outputs
     return result
 
 
+def trusted_base_signatures(t_unit: Any) -> set[str]:
+    """Constructs in the kernel that loopy's C printer is known to mistranslate.
+    Only used to attribute a binary-vs-NumPy disagreement when the kernel-level
+    interpreter agrees with NumPy."""
+    import pymbolic.primitives as p
+    sigs: set[str] = set()
+
+    def walk(e: Any, parent: Any = None) -> None:
+        if isinstance(e, (p.BitwiseAnd, p.BitwiseOr, p.BitwiseXor)) and \
+                isinstance(parent, (p.Comparison, p.BitwiseAnd, p.BitwiseOr, p.BitwiseXor,
+                                    p.LogicalAnd, p.LogicalOr)) and type(parent) is not type(e):
+            # C gives == != < <= lower/higher precedence than & ^ | differently from Python;
+            # loopy prints no parentheses: `x & 3 <= 2`
+            sigs.add("loopy-C:bitwise-operand-unparenthesised")
+        if isinstance(e, (p.LogicalAnd, p.LogicalOr, p.LogicalNot)):
+            # loopy generates the operands of && || ! in an integer type context: a float
+            # constant below (e.g. a pad / where constant -0.5) is emitted as (double)(0),
+            # or code generation stops with "don't know how to generate code for constant"
+            def has_float_const(x: Any) -> bool:
+                if isinstance(x, (float, np.floating, complex, np.complexfloating)):
+                    return True
+                if isinstance(x, p.ExpressionNode):
+                    import dataclasses
+                    for f_ in dataclasses.fields(x):  # type: ignore[arg-type]
+                        v_ = getattr(x, f_.name)
+                        if isinstance(v_, tuple):
+                            if any(has_float_const(c_) for c_ in v_):
+                                return True
+                        elif has_float_const(v_):
+                            return True
+                return False
+            if has_float_const(e):
+                sigs.add("loopy-C:float-constant-under-logical-op")
+        if isinstance(e, p.Comparison) and isinstance(parent, p.Comparison):
+            # `a >= 1 <= b >= 1`: C relational operators chain left to right
+            sigs.add("loopy-C:nested-comparison-unparenthesised")
+        if isinstance(e, p.ExpressionNode):
+            import dataclasses
+            for f in dataclasses.fields(e):  # type: ignore[arg-type]
+                v = getattr(e, f.name)
+                if isinstance(v, tuple):
+                    for c in v:
+                        walk(c, e)
+                else:
+                    walk(v, e)
+    knl = t_unit.default_entrypoint
+    for insn in knl.instructions:
+        ex = getattr(insn, "expression", None)
+        if ex is not None:
+            walk(ex)
+    for r in knl.substitutions.values():
+        walk(r.expression)
+    return sigs
+
+
 def classify_value(spec: dict[str, Any], name: str, got: np.ndarray, want: np.ndarray) -> str:
-    """Mechanism key for a value mismatch: the ops on the path to the output (coarse)."""
-    # which node produced the output and the set of op kinds feeding it
-    byid = {n["id"]: n for n in spec["nodes"]}
-    root = spec["outputs"][name]
-    seen: set[int] = set()
-    ops: set[str] = set()
-    stack = [root]
-    while stack:
-        i = stack.pop()
-        if i in seen or i not in byid:
+    """Coarse class of a value mismatch; the mechanism part of the key is the
+    signature of the shrunk spec (see finalize_violations)."""
+    from vf.oracle import compare
+    if got.shape == want.shape and want.dtype.kind in "fc" and \
+            compare.close_ulps(got, want, 2.0 ** 30 if want.dtype.itemsize >= 8 else 2.0 ** 10):
+        return "C01:value:precision-only"
+    return "C01:value"
+
+
+def finalize_violations(spec: dict[str, Any], tmp: common.Collector,
+                        col: common.Collector) -> None:
+    """Shrink the spec for every violation and key it by the minimal spec's signature."""
+    from vf.gen import shrink
+    done: set[str] = set()
+    for v in tmp.violations:
+        coarse = v["key"]
+        if coarse in done:
             continue
-        seen.add(i)
-        ops.add(byid[i]["op"])
-        stack.extend(a for a in byid[i]["args"] if ps.is_ref(a))
-    rootop = byid[root]["op"] if root in byid else "input"
-    return f"C01:value:{rootop}:{'+'.join(sorted(ops))[:80]}"
+        done.add(coarse)
+        w = v["witness"]
+        vset = w.get("vset", 0) if isinstance(w, dict) else 0
+        variant = bool(w.get("variant")) if isinstance(w, dict) else False
+
+        def fails(s: dict[str, Any]) -> bool:
+            c2 = common.Collector()
+            try:
+                run_program(s, c2, variant=variant, vset0=vset if variant else 0)
+            except Exception:  # noqa: BLE001
+                return False
+            return any(x["key"] == coarse for x in c2.violations)
+        try:
+            small = shrink.shrink(spec, fails, vset=vset)
+        except Exception:  # noqa: BLE001
+            small = spec
+        sig = ps.signature(small)
+        w2 = dict(w) if isinstance(w, dict) else {"witness": w}
+        w2["spec"] = small
+        w2["original_spec_hash"] = common.stable_hash(spec)
+        col.violation(f"{coarse}:{sig}", v["what"], w2)
+        n = tmp.viol_counts.get(coarse, 1)
+        if n > 1:
+            col.viol_counts[f"{coarse}:{sig}"] = col.viol_counts.get(f"{coarse}:{sig}", 0) + n - 1
 
 
 def check_case(case: dict[str, Any], col: common.Collector) -> None:
@@ -214,12 +347,21 @@ def check_case(case: dict[str, Any], col: common.Collector) -> None:
     h = common.stable_hash(spec)
     old = signal.signal(signal.SIGALRM, _alarm)
     signal.alarm(PER_PROGRAM_TIMEOUT)
+    tmp = common.Collector()
     try:
-        base = run_program(spec, col)
+        base = run_program(spec, tmp)
         rng = common.rng_for(spec["vseed"], "variant")
         if base is not None and rng.random() < 0.3:
-            col.count("mon.order_variants")
-            run_program(spec, col, variant=True, vset0=0)
+            tmp.count("mon.order_variants")
+            run_program(spec, tmp, variant=True, vset0=0)
+        for k, v in tmp.counters.items():
+            col.count(k, v)
+        for t, d in tmp.hist.items():
+            for k, v in d.items():
+                col.histo(t, k, v)
+        if tmp.violations:
+            signal.alarm(4 * PER_PROGRAM_TIMEOUT)
+            finalize_violations(spec, tmp, col)
     except _Timeout:
         col.count("program_timeouts")
         col.histo("timeouts", spec.get("profile", "?"))
